@@ -1096,3 +1096,72 @@ def rule_not_a_kind(prog):
     if n == 0:
         out.missing("matches with an error-reporting wildcard arm in spl_frontend::table")
     return out
+
+
+# ------------------------------------------------------------------ POSITION-TOKEN
+
+def rule_position_token(prog):
+    """Completion classifies the syntactic position of the cursor by the kind of the token in front of it (`:` -> type position,
+    `;` / `{` -> statement start ...).  Comments may stand in every token gap, so the token that decides must be the last one in front
+    of the cursor that is *not a comment*: either the search itself (token_before) or its caller skips TokenType::Comment."""
+    out = Out("POSITION-TOKEN")
+    c = prog.lsp
+    fc = prog.front
+    tb = [b for b in fc.bodies if b["name"] == "token_before" and "/tests" not in fc.file_of(b["sp"])]
+    if not tb:
+        out.missing("tokens::TokenList::token_before")
+        return out
+    COMMENT = "spl_frontend::tokens::TokenType::Comment"
+
+    def tests_comment(root, crate):
+        for x in hir.nodes_deep(prog, root, 2, crate=crate):
+            pats = [a["pat"] for a in x["arms"]] if x.get("k") == "Match" else [x["pat"]] if x.get("k") == "LetExpr" else []
+            if any(COMMENT in hir.pat_variants_all(pt) for pt in pats):
+                return True
+        return False
+    in_search = any(tests_comment(b["body"], fc) for b in tb)
+    n = 0
+    for b in c.bodies:
+        if not b["p"].startswith("lsp4spl::features::completion") or "/tests" in c.file_of(b["sp"]) or b["k"] == "closure":
+            continue
+        for mc, parents in hir.walk(b["body"]):
+            if mc.get("k") != "MethodCall" or mc["m"] != "token_before":
+                continue
+            n += 1
+            ok = in_search
+            if not ok:
+                # the caller steps over comments itself?
+                encl = [p_ for p_ in parents if p_.get("k") == "MethodCall" and p_["m"] in ("and_then", "map", "filter")]
+                ok = any(tests_comment(a_, c) for p_ in encl for a_ in p_["args"])
+            out.add(b["d"], "the token that classifies the cursor position is not a comment", ok, c.loc(mc["sp"]),
+                    "token_before returns the last token that starts in front of the cursor, comments included, and the position is "
+                    "classified by matching on its kind: with a comment between the deciding token and the cursor (`var i: int; // c` + "
+                    "line break, or a comment line in front of the cursor) no arm matches and nothing is proposed", ("comment",))
+    if n < 2:
+        out.missing("token_before call sites in features::completion (found %d)" % n)
+    # the statement the cursor is in: searched in a list of statements by `range.contains(position)`.  The token range of a statement
+    # starts with the comments in front of it (every token parser swallows them), so the range that is tested must start at the first
+    # token that is not a comment - otherwise a statement start behind a comment line counts as the inside of the next statement
+    m = 0
+    for b in c.bodies:
+        if not b["p"].startswith("lsp4spl::features::completion") or "/tests" in c.file_of(b["sp"]) or b["k"] == "closure":
+            continue
+        takes_list = any("[spl_frontend::ast::Reference<spl_frontend::ast::Statement>]" in c.tstr(pp["bt"]).replace("ast::Reference<ast::Statement>", "spl_frontend::ast::Reference<spl_frontend::ast::Statement>")
+                         for q in b["params"] for pp in hir.pat_bindings(q))
+        if not takes_list:
+            continue
+        for clo in hir.nodes(b["body"], "Closure"):
+            cont = [x for x in hir.nodes(clo["body"], "MethodCall") if x["m"] == "contains"]
+            if not cont:
+                continue
+            m += 1
+            # direct form `stmt.to_text_range(tokens).contains(&position)`: the whole token range, comments included
+            direct = any(hir.strip(x["recv"]).get("k") == "MethodCall" and hir.strip(x["recv"])["m"] == "to_text_range" for x in cont)
+            ok = (not direct) and tests_comment(clo["body"], c)
+            out.add(b["d"], "the comments in front of a statement do not count as the statement when the cursor is located", ok if (direct or tests_comment(clo["body"], c)) else None,
+                    c.loc(cont[0]["sp"]), "`stmt.to_text_range(tokens).contains(&position)`: a cursor behind a comment line and in front of the next "
+                    "statement is taken to be inside that statement, so a statement start gets the proposals of the statement's interior (none)",
+                    ("comment", "stmt"))
+    if m < 1:
+        out.missing("statement search by cursor position in features::completion (found %d)" % m)
+    return out
